@@ -50,12 +50,15 @@ LEVEL_TEXT = (
     "(06bf1c1); their witnesses stay in the corpus and their oracle clauses stay strict.")
 THEOREMS = [("Kopf.Props.C20", "Kopf.C20." + n) for n in [
     "no_api_before_startup", "failed_startup_no_api", "ready_after_startup", "root_failure_stops_all",
-    "root_failure_no_lingering", "cleanup_last", "reraise", "daemons_stopped", "peering_withdrawn",
-    "worker_failure_reaches_watcher", "worker_failure_stops_all_partial", "exit_bound",
-    "stream_failure_stops_all", "gone_is_not_a_failure", "stream_failure_stops_all_partial",
-    "historical_stream_failure_lingers_witness"]]
+    "returns", "no_timelock", "cleanup_last", "reraise", "no_daemon_alive_at_return", "peering_withdrawal_attempted",
+    "withdrawal_may_fail_witness", "worker_failure_reaches_watcher_partial", "worker_failure_during_depletion_dropped_witness",
+    "worker_failure_stops_all", "exit_bound_partial", "noncooperative_exit_unbounded_witness",
+    "failure_to_stop_bound_partial", "stream_failure_stops_all", "gone_is_not_a_failure",
+    "historical_stream_failure_lingers_witness", "core_failure_lingers_witness", "core_failure_skips_cleanup_witness",
+    "core_failure_stops_all"]]
 TIE_THEOREMS = [("Kopf.Tie.C20", "Kopf.C20.Tie." + n) for n in [
-    "escalates_eq", "head_is_fixed", "ignores_not_found_eq", "restarts_exited_eq", "scan_cancels_children_eq"]]
+    "escalates_eq", "head_is_fixed", "ignores_not_found_eq", "restarts_exited_eq", "scan_cancels_children_eq",
+    "watches_core_eq", "head_core_variant"]]
 RULE = ("seeded lifecycle histories: 0-2 startup handlers (ok / sleeping / temporary with retries / permanent / retries "
         "exhausted), 0-2 cleanup handlers (ok / sleeping / temporary / permanent), 0-2 daemons (obey / needs cancellation / "
         "swallows one cancellation / exits on its own; with and without cancellation_timeout/backoff), in-flight update handlers "
@@ -81,6 +84,9 @@ ASSUMPTIONS = ["operator() must return within  2*E + W + D + C + H + 1 s  after 
 
 F3_SIG = {"site": "orchestration.orchestrator", "shape": "ensemble task ended with an exception while the operator keeps running"}
 
+CORE_SIG = {"site": "running.spawn_tasks", "shape": "core task ended with an exception while the operator keeps running"}
+DROPPED_SIG = {"site": "queueing.watcher",
+               "shape": "worker failed while its watcher was already depleting its workers: only logged, not escalated, not re-raised"}
 DK_SIG = {"site": "daemons.daemon_killer",
           "shape": "daemon killer fails (running_daemons changed size during iteration) while spawning the exit stoppers"}
 ORPHAN_SIG = {"site": "scanning.scan_resources",
@@ -166,11 +172,40 @@ def extract(ctx: Ctx) -> None:
     gathers = bool(helpers) and all(any(isinstance(c.func, ast.Name) and c.func.id in helper_names
                                         for c in ast.walk(_find_def(stree, n)) if isinstance(c, ast.Call))
                                     for n in ("scan_resources", "_read_old_api", "_read_new_apis"))
-    facts = {"attachesDoneCallback": attaches, "callbackCancelsOrchestrator": cancels, "callbackIgnoresNotFound": ignores404,
+    # (7) running.py: is there a ROOT task that awaits the core tasks (FIRST_COMPLETED) and re-raises their errors, and are
+    #     those errors re-raised by startup_cleanup_activities only AFTER the cleanup activity? (finding C20-F6 / its repair)
+    try:
+        rtree = ast.parse((ctx.repo / "kopf/_core/reactor/running.py").read_text())
+    except (OSError, SyntaxError) as e:
+        raise ExtractError(f"cannot parse running.py: {e}")
+    spawn = _find_def(rtree, "spawn_tasks")
+    sca = _find_def(rtree, "startup_cleanup_activities")
+    if not any(isinstance(n, ast.keyword) and n.arg == "core_tasks" for n in ast.walk(spawn)):
+        raise ExtractError("spawn_tasks passes no `core_tasks` to anybody: unknown shape")
+    root_appends = [c for c in _calls(spawn, "append") if isinstance(c.func.value, ast.Name) and c.func.value.id == "tasks"]
+    awaiting = set()
+    for c in root_appends:
+        for call in ast.walk(c):
+            if isinstance(call, ast.Call) and isinstance(call.func, ast.Name) and call.func.id != "startup_cleanup_activities" \
+                    and any(k.arg == "core_tasks" for k in call.keywords):
+                awaiting.add(call.func.id)
+    root_awaits_core = False
+    for name in awaiting:
+        f = _find_def(rtree, name)
+        waits = [c for c in _calls(f, "wait") if any(k.arg == "return_when" and "FIRST_COMPLETED" in ast.unparse(k.value)
+                                                      for k in c.keywords)]
+        root_awaits_core = root_awaits_core or (bool(waits) and bool(_calls(f, "reraise")))
+    cleanup_lines = [c.lineno for c in _calls(sca, "run_activity") if "CLEANUP" in ast.unparse(c)]
+    core_reraise = [c.lineno for c in _calls(sca, "reraise") if c.args and "core" in ast.unparse(c.args[0])]
+    if not cleanup_lines:
+        raise ExtractError("startup_cleanup_activities runs no cleanup activity: unknown shape")
+    core_after_cleanup = bool(core_reraise) and all(l > max(cleanup_lines) for l in core_reraise)
+    facts = {"rootTaskAwaitsCore": root_awaits_core, "coreErrorsAfterCleanup": core_after_cleanup,
+             "attachesDoneCallback": attaches, "callbackCancelsOrchestrator": cancels, "callbackIgnoresNotFound": ignores404,
              "reraisesTaskError": reraises, "doneTasksAreRedundant": done_redundant, "scanGathers": gathers,
              "scanCancelsInFinally": cancels_children, "scanUsesAsCompleted": uses_as_completed}
     ctx.extra["extracted_facts"] = facts
-    text = ("/- GENERATED by harness/props/c20.py::extract from kopf/_core/reactor/orchestration.py and\n"
+    text = ("/- GENERATED by harness/props/c20.py::extract from kopf/_core/reactor/orchestration.py, running.py and\n"
             "   kopf/_cogs/clients/scanning.py — do not edit. -/\nnamespace Kopf.C20.Extracted\n"
             + "".join(f"def {k} : Bool := {'true' if v else 'false'}\n" for k, v in facts.items())
             + "end Kopf.C20.Extracted\n")
@@ -208,30 +243,48 @@ def graces(sc: dict) -> dict:
     return {"E": e, "W": w, "D": d, "C": c, "H": H_S}
 
 
-def bound_s(sc: dict) -> float:
-    """operator() must have returned within this many seconds after the trigger:
-       E (depletion inside a failing watcher, before its failure escalates) + E (depletion at shutdown)
-       + W (peering withdrawal incl. retries) + D (exit stoppers of daemons: cancellation_backoff + cancellation_timeout)
-       + C (scripted cleanup duration) + H (hung tasks, 5 s) + slack."""
+def bound_s(sc: dict, kind: str = "failure") -> float:
+    """operator() must have returned within this many seconds after the trigger — the bounds of the Lean theorems plus slack:
+       after a stop request (flag, cancellation: `run_tasks` begins to stop at once)  G + C + H   (`exit_bound_partial`),
+       after a failure                                                              3·G + C + H   (`failure_to_stop_bound_partial`:
+       the failing task's own `finally:`, the orchestrator stopping the other streams, then the shutdown proper),
+       G = E + W + D: E depletion of workers (exit_timeout), W peering withdrawal incl. retries, D exit stoppers of daemons
+       (cancellation_backoff + cancellation_timeout); C scripted cleanup duration; H hung tasks, 5 s."""
     g = graces(sc)
-    return 2 * g["E"] + g["W"] + g["D"] + g["C"] + g["H"] + SLACK_S
+    G = g["E"] + g["W"] + g["D"]
+    return (1 if kind in ("flag", "cancel") else 3) * G + g["C"] + g["H"] + SLACK_S
 
 
-def model_cfg(sc: dict, fixed: bool) -> dict:
+def coop_daemons(sc: dict) -> set[str]:
+    """ids of the daemon handlers that end within their exit stopper's patience (the model's `coop`)"""
+    return {h["id"] for h in sc.get("handlers", []) if h["kind"] == "daemon" and (
+        h["daemon"].get("mode") == "obey" or
+        (h["daemon"].get("mode") in ("cancel", "exit") and (h.get("opts") or {}).get("cancellation_timeout") is not None))}
+
+
+def model_cfg(sc: dict, fixed: bool, core_watched: bool) -> dict:
     g = graces(sc)
-    return {"fixed": fixed, "E": ticks(g["E"]), "W": ticks(g["W"]), "D": ticks(g["D"]), "C": ticks(g["C"]), "H": ticks(g["H"])}
+    return {"fixed": fixed, "coreWatched": core_watched, "E": ticks(g["E"]), "W": ticks(g["W"]), "D": ticks(g["D"]),
+            "C": ticks(g["C"]), "H": ticks(g["H"])}
 
 
 # =================================================================================================
 # Abstraction: the global order log → model labels (tie A)
 # =================================================================================================
-ROOTS = {"stopFlag", "ultimate", "startupCleanup", "daemonKiller", "poster", "admChain", "admValidating", "admMutating",
+ROOTS = {"stopFlag", "ultimate", "startupCleanup", "coreWatcher", "daemonKiller", "poster", "admChain", "admValidating", "admMutating",
          "admServer", "resObserver", "nsObserver", "orchestrator"}
 
 
-def abstract(obs: dict) -> list[list]:
+def abstract(obs: dict, sc: dict | None = None) -> list[list]:
     log = obs["log"]
     out: list[list] = []
+    coop = coop_daemons(sc or {})
+    # outcomes of the withdrawal PATCHes, in the order of their requests
+    wd_ok = [isinstance(r.get("response"), int) and r["response"] < 400 for r in obs.get("requests", []) if r.get("withdraw")]
+    n_wd = 0
+    # the "core tasks watcher" exists only in a tree with the repair of C20-F6; otherwise the model's root task of that name is
+    # a phantom, which ends (cancelled) at the moment `run_tasks` cancels the root tasks
+    has_cw = any((e[1] == "rootEnd" and e[2] == "coreWatcher") or (e[1] == "spawned" and "coreWatcher" in e[2]) for e in log)
     sub_end = {e[2]: e[4] for e in log if e[1] == "subEnd"}
     sub_exc = {e[2]: e[5] for e in log if e[1] == "subEnd"}
     root_end = {e[2]: e[3] for e in log if e[1] == "rootEnd"}
@@ -263,6 +316,11 @@ def abstract(obs: dict) -> list[list]:
         if kind in ("spawn", "spawned", "rtWaitDone", "rtCancelled", "rtStopRootsEnd", "rtHungWaitEnd", "rtStopHungEnd",
                     "rtReraise", "scReraiseCore", "scCleanupBegin", "orchStopSubsEnd", "stopperEnd",
                     "poisoned", "scStopCoreCancelled", "abandoned"):
+            continue
+        if kind == "killerFinally":
+            if not killer_stopping:
+                killer_stopping = True
+                put("rootStopping", "daemonKiller", root_end.get("daemonKiller") == "failed")
             continue
         if kind == "stopperBegin":
             if "EXITING" in a[1] and not killer_stopping:
@@ -320,14 +378,17 @@ def abstract(obs: dict) -> list[list]:
                     if i not in ended_subs:
                         put("subCancel", i)
         elif kind == "depletionBegin":
+            # `fail` is OBSERVED: the exception in flight when the watcher's `finally:` begins (not how the task ends later)
+            exc = a[2] if len(a) > 2 else None
+            failing = exc not in (None, "CancelledError")
             if a[0] in ROOTS:
-                put("rootStopping", a[0], root_end.get(a[0]) == "failed")
+                put("rootStopping", a[0], failing)
             else:
                 sub_stopping.add(a[1])
-                if sub_exc.get(a[1]) == "APINotFoundError":
+                if exc == "APINotFoundError":
                     put("subGone", a[1])
                 else:
-                    put("subStopping", a[1], sub_end.get(a[1]) == "failed")
+                    put("subStopping", a[1], failing)
         elif kind == "subSpawn":
             put("subSpawn", a[0], a[1])
         elif kind == "subEnd":
@@ -350,17 +411,18 @@ def abstract(obs: dict) -> list[list]:
                 if ref not in sub_stopping:
                     sub_stopping.add(ref)
                     put("subStopping", ref, sub_end.get(ref) == "failed")
-                put("withdraw", ref)
+                put("withdraw", ref, wd_ok[n_wd] if n_wd < len(wd_ok) else False)
+                n_wd += 1
             else:
                 put("act", task(actor, ref))
         elif kind in ("hBegin", "hEnd"):
             hkind, hid, name = a[0], a[1], a[2]
-            if hkind in ("startup", "cleanup"):
+            if hkind in ("startup", "cleanup", "login"):     # activities: the core task's login has no label of its own
                 continue
             if hkind == "daemon":
                 if kind == "hBegin":
                     daemons[(hid, name)] = n_daemons
-                    put("daemonSpawn", n_daemons)
+                    put("daemonSpawn", n_daemons, hid in coop)
                     n_daemons += 1
                 else:
                     put("daemonExit", daemons[(hid, name)])
@@ -368,6 +430,8 @@ def abstract(obs: dict) -> list[list]:
                 put("act", task("worker", a[-1]))
         elif kind == "rtStopRootsBegin":
             put("rtCancel" if a[1] else "rtStopRoots")
+            if not has_cw:
+                put("rootEnd", "coreWatcher", "cancelled")
         elif kind == "rtHungWaitBegin":
             put("rtHungWait")
         elif kind == "rtStopHungBegin":
@@ -455,9 +519,19 @@ def oracle(sc: dict, obs: dict) -> tuple[list[tuple[str, dict]], dict]:
     for i in pos["subEnd"]:
         if log[i][4] == "failed" and i not in gone:     # HTTP 404: the resource is gone — not a failure of the operator
             failures.append((i, log[i][0], "ensemble:" + log[i][3], log[i][5]))
+    # a worker that fails while its watcher is already in its `finally:` (depletion) — kopf only logs that (finding C20-F5)
+    owner_of = {e[2]: (e[3], e[4]) for e in log if e[1] == "workerStart"}
+    depl_pos: dict[tuple, int] = {}
+    for i, e in enumerate(log):
+        if e[1] == "depletionBegin":
+            depl_pos.setdefault((e[2], e[3]), i)
+    dropped: list[tuple[int, float, str, str]] = []
     for i in pos["workerEnd"]:
         if log[i][3] == "failed":
-            failures.append((i, log[i][0], "worker", log[i][4]))
+            f = (i, log[i][0], "worker", log[i][4])
+            failures.append(f)
+            if depl_pos.get(owner_of.get(log[i][2], ("?", None)), len(log)) < i:
+                dropped.append(f)
     raised_n: dict[str, int] = {}
     for i in pos["hEnd"]:
         if log[i][2] == "startup" and log[i][5].startswith("raised"):
@@ -482,6 +556,7 @@ def oracle(sc: dict, obs: dict) -> tuple[list[tuple[str, dict]], dict]:
                     DK_SIG))
         failures = [f for f in failures if f not in dk_failed]
     facts["daemon_killer_crashed"] = bool(dk_failed)
+    facts["workers_failed_during_depletion"] = len(dropped)
     facts["failures"] = [f[2] + ":" + str(f[3]) for f in failures]
     facts["trigger"] = trig[0][2] if trig else None
 
@@ -497,25 +572,35 @@ def oracle(sc: dict, obs: dict) -> tuple[list[tuple[str, dict]], dict]:
     lingering = False
     if trig:
         p0, t0, kind0 = trig[0]
-        limit = t0 + bound_s(sc)
+        bound = bound_s(sc, kind0)
+        limit = t0 + bound
         facts["t0"] = t0
-        facts["bound"] = bound_s(sc)
+        facts["bound"] = bound
         if ret is None or ret["t"] > limit:
             lingering = True
-            roots_alive = not any(log[i][0] <= limit and i < end_pos for i in pos["rootEnd"])
+            roots_alive = not any(log[i][0] <= limit and i < end_pos and log[i][2] != "core" for i in pos["rootEnd"])
             ens_failed = [f for f in failures if f[2].startswith("ensemble:") and f[1] <= limit]
+            core_failed = [f for f in failures if f[2] == "root:core" and f[0] == p0]
             later_edit = [log[i] for i in pos["op"] if log[i][2] == "edit" and log[i][0] > t0 and i < end_pos]
-            handled_later = any(log[i][2] in CHANGE_KINDS and log[i][0] > t0 + bound_s(sc) for i in pos["hBegin"] if i < end_pos)
+            handled_later = any(log[i][2] in CHANGE_KINDS and log[i][0] > t0 + bound for i in pos["hBegin"] if i < end_pos)
             facts["lingering"] = {"alive_at": limit, "returned": ret, "later_edits": len(later_edit),
                                   "later_edit_handled": handled_later}
-            if ens_failed and roots_alive and kind0 == "failure":
+            if core_failed and roots_alive and kind0 == "failure":
+                cl_ran = any(log[i][2] == "cleanup" for i in pos["hBegin"])
+                bad.append((f"the core task (credentials retriever) ended with {core_failed[0][3]} at t={t0}; operator() still running "
+                            f"at t={limit} (bound {bound} s), all root tasks alive; {len(later_edit)} later edit(s), handled: "
+                            f"{handled_later}; when finally stopped: outcome {ret}, cleanup handlers ran: {cl_ran}", CORE_SIG))
+            elif ens_failed and roots_alive and kind0 == "failure":
                 bad.append((f"{ens_failed[0][2]} ended with {ens_failed[0][3]} at t={ens_failed[0][1]} (first failure: "
                             f"{failures[0][2]} {failures[0][3]} at t={t0}); operator() still running at t={limit} "
-                            f"(bound {bound_s(sc)} s), all root tasks alive; {len(later_edit)} later edit(s), handled: {handled_later}",
+                            f"(bound {bound} s), all root tasks alive; {len(later_edit)} later edit(s), handled: {handled_later}",
                             F3_SIG))
+            elif dropped and dropped[0][0] == p0 and kind0 == "failure":
+                bad.append((f"a worker failed with {dropped[0][3]} at t={t0} while its watcher was depleting its workers; nothing was "
+                            f"escalated: operator() still running at t={limit} (bound {bound} s); outcome {ret}", DROPPED_SIG))
             else:
                 fail("running.run_tasks", f"operator() did not return within the grace periods after a {kind0}",
-                     f"trigger {kind0} at t={t0}, bound {bound_s(sc)} s, outcome {ret}")
+                     f"trigger {kind0} at t={t0}, bound {bound} s, outcome {ret}")
     facts["is_lingering"] = lingering
     facts["gone_watchers"] = len(gone)
     # a resource that is gone is not a failure, and when it is served again it is watched again
@@ -542,6 +627,11 @@ def oracle(sc: dict, obs: dict) -> tuple[list[tuple[str, dict]], dict]:
             fail("running.run_tasks", "operator() returned although nothing failed and no stop was requested", f"{ret}")
         elif dk_failed:
             pass        # the outcome is the crash of the daemon killer or of a stopper it left behind (same finding)
+        elif ret["how"] == "done" and dropped and want == {"failed"} and len(dropped) == len(failures) \
+                and not (startup_failed or cleanup_raised):
+            bad.append((f"a worker failed with {dropped[0][3]} at t={dropped[0][1]} while its watcher was depleting its workers "
+                        f"(after a {kinds[0]} at t={trig[0][1]}): the failure was only logged, operator() returned normally: {ret}",
+                        DROPPED_SIG))
         elif ret["how"] not in want:
             fail("running.run_tasks", "operator() outcome does not re-raise the failure / reflect the stop request",
                  f"outcome {ret}, triggers {kinds}, failures {facts['failures']}, startup_failed={startup_failed}, "
@@ -606,9 +696,7 @@ def oracle(sc: dict, obs: dict) -> tuple[list[tuple[str, dict]], dict]:
                         running_d.add((e[3], e[4]))
                 elif e[1] == "hEnd" and e[2] == "daemon":
                     running_d.discard((e[3], e[4]))
-            coop = {h["id"] for h in sc.get("handlers", []) if h["kind"] == "daemon" and (
-                h["daemon"].get("mode") == "obey" or
-                (h["daemon"].get("mode") in ("cancel", "exit") and (h.get("opts") or {}).get("cancellation_timeout") is not None))}
+            coop = coop_daemons(sc)
             running_coop = sorted(d for d in running_d if d[0] in coop)
             facts["abandoned_daemons_at_cleanup"] = sorted(d for d in running_d if d[0] not in coop)
             if running_coop and not dk_failed:
@@ -642,7 +730,7 @@ DAEMON_SHAPES = [
 ]
 TRIGGERS = ["flag", "flag", "cancel", "cancel", "watch_error_kex", "watch_error_crd", "watch_error_peering", "poison",
             "memo_poison", "discovery_500_initial", "discovery_500_rescan", "pinger_500", "startup_fail", "cleanup_fail",
-            "flag", "watch_error_kex", "crd_gone"]
+            "flag", "watch_error_kex", "crd_gone", "login_fail", "worker_fail_depletion"]
 PHASES = ["startup", "startup_end", "discovery", "spawning", "steady", "inflight"]
 
 
@@ -650,6 +738,10 @@ def gen_history(rng: Any, i: int, force: dict | None = None) -> dict:
     force = force or {}
     trigger = force.get("trigger") or rng.choice(TRIGGERS)
     peering = force.get("peering", rng.random() < 0.4 or trigger in ("watch_error_peering", "pinger_500"))
+    if trigger == "login_fail":
+        # with peering the dead vault also blocks the withdrawal PATCH for ever: such an operator cannot even be stopped
+        # gracefully (seen: still running 64 s after the stop flag) — a non-cooperative run, outside the traces the model accepts
+        peering = False
     handlers: list[dict] = []
     shape: dict[str, Any] = {"trigger": trigger, "peering": peering}
     # startup handlers
@@ -687,10 +779,14 @@ def gen_history(rng: Any, i: int, force: dict | None = None) -> dict:
         dm.append(name)
         handlers.append({"kind": "daemon", "id": f"d{k}", "daemon": dict(d), "opts": dict(opts)})
     shape["daemons"] = sorted(dm)
-    dur = rng.choice([0.5, 1.5, 1.5, 3.0])
+    dur = rng.choice([0.5, 1.5, 1.5, 3.0]) if trigger != "worker_fail_depletion" else rng.choice([1.0, 1.5])
     handlers.append({"kind": "create", "id": "c", "script": [], "default": "ok"})
     handlers.append({"kind": "update", "id": "u", "script": [], "default": ["sleep", dur, "ok"]})
-    n_obj = rng.choice([0, 1, 1, 2, 3]) if trigger not in ("poison", "memo_poison") else rng.choice([1, 2])
+    if trigger == "login_fail":
+        # the credentials are invalidated later on (HTTP 401); the re-login fails for good: the core task dies
+        handlers.append({"kind": "login", "id": "lg", "script": ["ok", "perm"], "default": "perm"})
+    n_obj = rng.choice([0, 1, 1, 2, 3]) if trigger not in ("poison", "memo_poison", "login_fail", "worker_fail_depletion") \
+        else rng.choice([1, 2])
     objects = [{"name": f"o{k}"} for k in range(n_obj)]
     # the trigger's moment
     s_dur = sum(script_duration(h) for h in handlers if h["kind"] == "startup")
@@ -699,6 +795,8 @@ def gen_history(rng: Any, i: int, force: dict | None = None) -> dict:
         phase = "startup"
     if trigger not in ("flag", "cancel", "startup_fail", "discovery_500_initial") and phase in ("startup", "startup_end", "discovery"):
         phase = rng.choice(["spawning", "steady", "inflight"])
+    if trigger == "worker_fail_depletion":
+        phase = "steady"
     if phase == "startup" and s_dur == 0:
         phase = "startup_end"
     t = {"startup": (rng.randrange(1, max(2, ticks(s_dur))) / TPS) if s_dur else 0.0,
@@ -716,7 +814,7 @@ def gen_history(rng: Any, i: int, force: dict | None = None) -> dict:
     shape["phase"] = phase
     shape["inflight"] = inflight
     sc: dict[str, Any] = {"seed": i, "handlers": handlers, "objects": objects, "peering": peering, "settings": {}}
-    if rng.random() < 0.3:
+    if rng.random() < 0.3 and trigger != "worker_fail_depletion":
         sc["settings"]["queueing.exit_timeout"] = rng.choice([0.5, 1.0, 4.0])
     if trigger == "flag":
         ops.append([t, "flag"])
@@ -749,12 +847,23 @@ def gen_history(rng: Any, i: int, force: dict | None = None) -> dict:
         ops.append([t, "crd_delete"])
         ops.append([t + gap, "crd_create"])
         ops.append([t + gap + 2.0, "create", "late", 5])
+    elif trigger == "login_fail":
+        ops.append([t, "unauthorized"])
+        ops.append([t + rng.choice([1 / TPS, 0.5]), "edit", objects[0]["name"], 20])
+    elif trigger == "worker_fail_depletion":
+        # a handler is in flight, a poisoned event waits behind it; the stop comes; the worker fails during the depletion
+        stop = rng.choice(["flag", "flag", "cancel"])
+        ops[:] = [o for o in ops if o[1] != "edit"]
+        ops.append([t - 0.5, "edit", objects[0]["name"], 10])
+        ops.append([t - 0.25, "poison", objects[0]["name"], 77])
+        ops.append([t, stop])
+        shape["inflight"] = True
     elif trigger in ("startup_fail",):
         pass
     elif trigger == "cleanup_fail":
         ops.append([t, rng.choice(["flag", "flag", "cancel"])])
     # when is the trigger felt at the latest? (keep-alive period <= 60 s; retries of a failing request)
-    felt = {"pinger_500": t + 60.0 + 8.0, "discovery_500_rescan": t + 8.0, "discovery_500_initial": s_dur + 8.0,
+    felt = {"login_fail": t + 1.0, "pinger_500": t + 60.0 + 8.0, "discovery_500_rescan": t + 8.0, "discovery_500_initial": s_dur + 8.0,
             "startup_fail": s_dur + 1.0, "memo_poison": t + 1.0}.get(trigger, t)
     b = bound_s(sc)
     probe = felt + b + 2.0
@@ -854,8 +963,12 @@ def _evaluate(ctx: Ctx, histories: list[dict], tie: bool = True) -> None:
     # tie A: the driver must accept every label trace of the model of the current tree (`headCfg`: fixed := true;
     # that this IS the variant of the source is re-checked from the AST by `extract` + Kopf/Tie/C20.lean)
     fixed = True
-    ctx.extra["model_variant"] = "headCfg (fixed := true: failed ensemble task -> orchestrator)"
-    reqs = [["C20.trace", model_cfg(sc, fixed), abstract(obs)] for sc, obs in zip(histories, obs_list)]
+    xf = ctx.extra.get("extracted_facts") or {}
+    core_watched = bool(xf.get("rootTaskAwaitsCore") and xf.get("coreErrorsAfterCleanup"))
+    ctx.extra["model_variant"] = ("headCfg (fixed := true: failed ensemble task -> orchestrator; coreWatched := "
+                                  f"{str(core_watched).lower()}: " + ("a root task awaits the core tasks)" if core_watched else
+                                                                      "nobody awaits the core task, finding C20-F6)"))
+    reqs = [["C20.trace", model_cfg(sc, fixed, core_watched), abstract(obs, sc)] for sc, obs in zip(histories, obs_list)]
     try:
         outs = ctx.driver.ask(reqs)
     except leanio.LeanError as e:
